@@ -152,6 +152,11 @@ def main(argv=None):
             continue
         if unit['undecided']:
             undecided.append('%s: %s' % (unit['qualname'], unit['undecided']))
+        for pth, line in unit.get('dead_ends', [])[:3]:
+            # vacuity guard: a path on which every alternative contradicts what has been assumed (contract clauses,
+            # invariants) proves nothing from there on - the unit is undecided, not silently accepted
+            undecided.append('%s: path %d is cut at source line %s by contradictory assumptions (vacuous from there on)'
+                             % (unit['qualname'], pth, line))
         refuted_here = []
         for o in unit['obls']:
             oid = obl_id(prop, unit, o)
@@ -202,6 +207,14 @@ def main(argv=None):
                 n_obl -= sum(1 for x in refuted_here if obl_id(prop, unit, x) == oid)
             else:
                 violations.append(rec)
+    # declarations of the sidecar that the source contradicts: a field listed as immutable but assigned by some method
+    used_classes = set()
+    for f_ in funcs:
+        used_classes.update(f_['qualname'].split('.<')[0].split('.'))
+    for kname, fld, where, line in driver.immutable_conflicts(eng):
+        if kname in used_classes:
+            undecided.append('class %s: field %s is declared immutable in the sidecar but %s assigns it (line %d): every unit of the '
+                             'class reads it as a constant' % (kname, fld, where, line))
     # thorough tier: every pure unit's contract is also evaluated natively on generated inputs.  On a tree where the
     # unit's obligations were all discharged a native failure means the engine or a spec function is wrong: checker failure.
     xcheck = dict(units=0, evaluations=0)
